@@ -43,6 +43,8 @@ def gen_cases(rng, tier, count=None):
         c = {"kind": "partition", "part": name, "box": box, "np_seed": int(rng.integers(1 << 30)),
              "ops_seed": int(rng.integers(1 << 30)), "steps": int(rng.integers(6, 40)),
              "p_deepen": float(rng.choice([0.0, 0.3, 0.6])), "max_nodes": 600, "_cost": 0.05}
+        if rng.random() < 0.15:
+            c.update(chain=str(rng.choice(["last", "random"])), p_deepen=0.0, steps=int(rng.integers(45, 90)))
         if name.startswith("R") and rng.random() < 0.6:
             c["inject"] = {"uniform_p": float(rng.choice([0.2, 0.5, 1.0])), "seed": int(rng.integers(1 << 30))}
         out.append(c)
